@@ -407,7 +407,7 @@ func runC19(cx *ctx) {
 	}
 	plans := []plan{
 		{newC19Cfg(r, "ed25519/own", false, "1", false, ed, rs[2]), cx.n(3, 4), cx.n(0, 1500), cx.n(60, 800)},
-		{newC19Cfg(r, "ed25519/other", false, "2", false, ed, rs[2]), cx.n(3, 4), cx.n(0, 1500), cx.n(60, 800)},
+		{newC19Cfg(r, "ed25519/other", false, "2", false, ed, rs[2]), cx.n(2, 4), cx.n(400, 1500), cx.n(60, 800)},
 		{newC19Cfg(r, "ed25519/ecdsa-file", false, "x", false, ed, rs[2]), 2, cx.n(0, 200), cx.n(10, 100)},
 		{newC19Cfg(r, "rsa/own", true, "1", false, rs, ed[2]), cx.n(2, 3), cx.n(40, 1000), cx.n(20, 400)},
 		{newC19Cfg(r, "rsa/other", true, "2", false, rs, ed[2]), cx.n(2, 3), cx.n(40, 1000), cx.n(20, 400)},
